@@ -2160,46 +2160,49 @@ impl<'a> Tokenizer<'a> {
     }
 
     pub fn pop(&mut self) -> DiagnosticResult<Option<Token>> {
-        match self.pop_raw() {
-            Ok(None) => Ok(None),
-            Ok(Some(token)) => {
-                if token.leading_is_start_of_ignored_region() {
-                    if !token.trailing_is_end_of_ignored_region() {
-                        loop {
-                            match self.pop_raw() {
-                                Ok(None) => {
-                                    // Note: we should probably emit an unterminated error here
-                                    // instead of silently failing.
-                                    return Ok(None);
-                                }
-                                Ok(Some(tok)) => {
-                                    if tok.trailing_is_end_of_ignored_region() {
-                                        break;
-                                    } else if tok.leading_is_end_of_ignored_region() {
-                                        // Note: to be pedantic, the 'vhdl_ls on' should be
-                                        // removed from the comments. However, because we have
-                                        // no public API and the comments don't really play
-                                        // a crucial role in the language server or binary,
-                                        // we just emit the token for simplicity.
-                                        return Ok(Some(tok));
+        // A loop, not recursion: any number of ignored regions may follow each other
+        loop {
+            return match self.pop_raw() {
+                Ok(None) => Ok(None),
+                Ok(Some(token)) => {
+                    if token.leading_is_start_of_ignored_region() {
+                        if !token.trailing_is_end_of_ignored_region() {
+                            loop {
+                                match self.pop_raw() {
+                                    Ok(None) => {
+                                        // Note: we should probably emit an unterminated error here
+                                        // instead of silently failing.
+                                        return Ok(None);
                                     }
+                                    Ok(Some(tok)) => {
+                                        if tok.trailing_is_end_of_ignored_region() {
+                                            break;
+                                        } else if tok.leading_is_end_of_ignored_region() {
+                                            // Note: to be pedantic, the 'vhdl_ls on' should be
+                                            // removed from the comments. However, because we have
+                                            // no public API and the comments don't really play
+                                            // a crucial role in the language server or binary,
+                                            // we just emit the token for simplicity.
+                                            return Ok(Some(tok));
+                                        }
+                                    }
+                                    Err(_) => {}
                                 }
-                                Err(_) => {}
                             }
                         }
+                        continue;
+                    } else {
+                        Ok(Some(token))
                     }
-                    self.pop()
-                } else {
-                    Ok(Some(token))
                 }
-            }
-            Err(err) => {
-                self.state.start = self.reader.state();
-                Err(Diagnostic::syntax_error(
-                    self.source.pos(err.range.start, err.range.end),
-                    err.message,
-                ))
-            }
+                Err(err) => {
+                    self.state.start = self.reader.state();
+                    Err(Diagnostic::syntax_error(
+                        self.source.pos(err.range.start, err.range.end),
+                        err.message,
+                    ))
+                }
+            };
         }
     }
 
